@@ -68,7 +68,9 @@ class Zipper(object):
                     set_result = True
 
         if cancel:
-            self.out.cancel()
+            if self.out.cancel():
+                # wake anyone blocked in wait() / as_completed() on the output
+                self.out.set_running_or_notify_cancel()
         if set_result:
             try_set_result(self.out, maketuple(self.fs))
         if set_exception:
